@@ -304,7 +304,13 @@ func (c *sctx) ident(x *EIdent) (Term, *SType) {
 	if b, ok := c.vars[x.Name]; ok {
 		return b.t, b.typ
 	}
-	if x.Name == "seen" && c.loopSeen != "" {
+	if x.Name == "rangepos" && strings.HasSuffix(c.loopSeen, ".pos") {
+		return vc.comp(c.cur, c.loopSeen, sInt), goT(tInt)
+	}
+	if x.Name == "rangecount" && strings.HasSuffix(c.loopSeen, ".pos") {
+		return vc.comp(c.cur, strings.TrimSuffix(c.loopSeen, ".pos")+".k", sInt), goT(tInt)
+	}
+	if x.Name == "seen" && strings.HasSuffix(c.loopSeen, ".seen") {
 		ks := strings.TrimSuffix(strings.TrimPrefix(vc.compSort[c.loopSeen], "(Array "), " Bool)")
 		_ = ks
 		return vc.comp(c.cur, c.loopSeen, vc.compSort[c.loopSeen]), &SType{Kind: "set", Elem: goT(tString)}
